@@ -296,6 +296,7 @@ let parse_pop name args =
   | "E" -> Execute (a 0, a 1) | "Y" -> TryExecute (a 0, a 1)
   | "X" -> Stop | "S" -> Start | "C" -> Cancel (a 0) | "G" -> OpenGate (a 0) | "F" -> Fire (a 0)
   | "R" -> Await (a 0) | "r" -> PollRes (a 0)
+  | "W" -> AwaitBegun (a 0) | "A" -> AwaitArmed (a 0) | "K" -> AwaitTask (a 0) | "Z" -> AwaitExpanded (a 0)
   | _ -> failwith ("unknown pool op " ^ name)
 let pool_slots opts threads =
   let subs = List.fold_left (fun acc th -> acc + List.length (List.filter (fun tok ->
